@@ -1,6 +1,7 @@
 package soyhtml
 
 import (
+	"fmt"
 	"math"
 	"math/rand"
 	"strings"
@@ -162,6 +163,10 @@ func funcRange(v []data.Value) data.Value {
 		limit = int(v[1].(data.Int))
 	case 1:
 		limit = int(v[0].(data.Int))
+	}
+
+	if increment <= 0 {
+		panic(fmt.Errorf("range: the step must be positive, got %v", increment))
 	}
 
 	var indices data.List
